@@ -97,7 +97,7 @@ def isEv (t : String) : Bool :=
 
 def handle (ts : Toks) : String :=
   match ts with
-  | mode :: _nT :: "#" :: rest =>
+  | mode :: nT :: "#" :: rest =>
     let (stream, _) := splitAt "|" rest
     let ev := stream.filter isEv
     let sync := stream.filter isSync
@@ -114,7 +114,8 @@ def handle (ts : Toks) : String :=
     let beforePos (p : Nat) : Toks := (stream.take p).filter isEv
     let abortSetBeforeFinal := (before "eFi" stream).contains "aSA" && stream.contains "eFi"
     let tdStarted := (ev.filter (fun t => isBs t && field t 2 == "t")).map (field · 1)
-    let single := !stream.contains "aSF"
+    -- one operator abort was requested (whatever the code then did with it), or no forced abort happened
+    let single := nT == "1" || !stream.contains "aSF"
     let pcs := (ev.filter (·.startsWith "pc:")).map (field · 1)
     let pts := (ev.filter (·.startsWith "pt:")).map (field · 1)
     let cbs := ev.filter (·.startsWith "cb:")
